@@ -22,6 +22,12 @@ def gen(rng, n):
     for i in range(n):
         lay = scen.Layout(rng)
         nodes, ents, mal = scen.populate(rng, lay)
+        if rng.random() < 0.2:
+            # an entry whose name is not valid UTF-8 (a byte string to the file system): what --dry-run prints must still be its path
+            nm = rng.choice(['caf\udce9.txt', '\udcff', 'x\udc80y'])
+            nodes += scen.entry(lay.home_trash, nm, '/was/' + nm.replace('\udce9', 'e').replace('\udcff', 'f').replace('\udc80', 'g'),
+                                rng.choice(scen.DATES), rng.choice(['f', 'd']))
+            ents.append({'td': lay.home_trash, 'name': nm})
         mode = rng.choice(['dry', 'dry', 'inter', 'inter', 'tty', 'plain'])
         argv = []
         env = {}
